@@ -289,7 +289,7 @@ func (c *Ctx) nameValue(s *State, name string, v Value) Value {
 		o := c.nameValue(s, name+"#off", IntV{x.Off}).(IntV).T
 		l := c.nameValue(s, name+"#len", IntV{x.Len}).(IntV).T
 		cp := c.nameValue(s, name+"#cap", IntV{x.Cap}).(IntV).T
-		return SliceV{r, o, l, cp}
+		return SliceV{r, o, l, cp, false}
 	}
 	return v
 }
@@ -755,8 +755,14 @@ func (c *Ctx) mergeValues(s *State, vals []Value, guards []string, name string) 
 			}
 			return c.mergeValues(s, vs, guards, name+suffix).(IntV).T
 		}
+		tail := false
+		for _, v := range vals {
+			if sv, ok := v.(SliceV); ok && sv.Tail {
+				tail = true
+			}
+		}
 		return SliceV{comp(func(x SliceV) string { return x.Ref }, "#ref"), comp(func(x SliceV) string { return x.Off }, "#off"),
-			comp(func(x SliceV) string { return x.Len }, "#len"), comp(func(x SliceV) string { return x.Cap }, "#cap")}
+			comp(func(x SliceV) string { return x.Len }, "#len"), comp(func(x SliceV) string { return x.Cap }, "#cap"), tail}
 	case StructV:
 		out := StructV{F: map[string]Value{}}
 		for k := range vals[0].(StructV).F {
@@ -1096,7 +1102,12 @@ func (c *Ctx) evalSliceExpr(x *ast.SliceExpr, s *State) Value {
 			c.oblige(s, "slice", c.text(x), x.Pos(), goal, c.panicTags)
 		}
 		// s[lo:hi] of a nil slice with lo=hi=0 stays nil (ref 0 kept)
-		return SliceV{sv.Ref, add(sv.Off, lo), sub(hi, lo), sub(mx, lo)}
+		// an explicit high bound other than len(x) may leave elements of the array visible beyond the new length
+		tail := sv.Tail
+		if x.High != nil && !c.isLenOf(x.High, x.X) && !c.freshRefs[sv.Ref] {
+			tail = true
+		}
+		return SliceV{sv.Ref, add(sv.Off, lo), sub(hi, lo), sub(mx, lo), tail}
 	case *types.Basic:
 		str := asInt(c.eval(x.X, s))
 		c.useStr()
@@ -1437,4 +1448,16 @@ func (c *Ctx) evalTypeAssert(x *ast.TypeAssertExpr, s *State, commaOk bool) (Val
 	z := zeroValue(to)
 	res := c.mergeValues(s, []Value{val, z}, []string{cond, "true"}, "ta")
 	return res, cond
+}
+
+// isLenOf: e is syntactically len(of)
+func (c *Ctx) isLenOf(e, of ast.Expr) bool {
+	call, ok := unparen(e).(*ast.CallExpr)
+	if !ok || len(call.Args) != 1 {
+		return false
+	}
+	if id, ok := call.Fun.(*ast.Ident); !ok || id.Name != "len" {
+		return false
+	}
+	return c.text(call.Args[0]) == c.text(of)
 }
